@@ -190,7 +190,7 @@ pub fn class_sequence(index: u64, max_len: u32) -> String {
 pub const SOUP_TOKENS: &[&str] = &[
     "5", "10", "3.5", "a", "b", "x", "$", "$?", "$!", "()", "+", "-", "*", "/", "//", "%", "**", "++", "--", "!", "&", "|", "^", "<<", ">>", "&&", "||", "^^", "!!", "??", "=", ",", ".", "_.", "._", ".|", "~~", "<~",
     "~>", "~", "^~", "#", "~#", "#=", "==", "!=", "<", "<=", ">", ">=", "<>", "..", ">..", "..<", ">..<", "?>", "!>", "|>", "(", ")", "{", "}", "[", "]", ";", ";;", "\n\n", "\n", " ", "  ", "\t", "`f`", "f`", "`f", "@a",
-    "@@ c\n", "\"s\"", "\"\"", "''", "'''1 2'''", "'b'", ":s", ":", "1e999", "2147483647", "0", "\"é\"",
+    "@@ c\n", "\"s\"", "\"\"", "''", "'''1 2'''", "'''1 é'''", "'é'", "\"\"\"é\"\"\"", "020_1z", "'b'", ":s", ":", "1e999", "2147483647", "0", "\"é\"",
 ];
 
 /// random token soup up to `max` tokens
@@ -227,6 +227,43 @@ pub fn char_soup(t: &mut Tape, max: usize) -> String {
     }
     s
 }
+
+/// every string of length 0..=max_len over `alphabet` (size order)
+pub fn alphabet_string(mut index: u64, alphabet: &[&str], max_len: u32) -> String {
+    let k = alphabet.len() as u64;
+    let mut len = 0u32;
+    let mut block = 1u64;
+    while len <= max_len {
+        if index < block {
+            break;
+        }
+        index -= block;
+        block *= k;
+        len += 1;
+    }
+    let mut parts = vec![""; len as usize];
+    for i in (0..len as usize).rev() {
+        parts[i] = alphabet[(index % k) as usize];
+        index /= k;
+    }
+    parts.concat()
+}
+
+pub fn alphabet_count(k: u64, max_len: u32) -> u64 {
+    let mut total = 0u64;
+    let mut block = 1u64;
+    for _ in 0..=max_len {
+        total += block;
+        block *= k;
+    }
+    total
+}
+
+/// literal-shaped strings: quotes of both kinds, digits, blanks, a multi-byte character, backslash, a letter, underscore
+pub const LITERAL_ALPHABET: &[&str] = &["'", "\"", "1", " ", "é", "\\", "a", "_", "0"];
+
+/// side-effect placements around values and an operator
+pub const SIDE_EFFECT_ALPHABET: &[&str] = &["5", "[", "]", "+", " "];
 
 pub fn simple_for_build() -> garnish_lang_simple_data::SimpleGarnishData {
     new_simple()
